@@ -53,7 +53,10 @@ CONFIG = {
              "0.25/0.5/1.5/2/4 wherever weights are passed; gaps_as_missing True/False/"
              "default.  score: non-trivial = tree with >= 3 leaves and at least one column needing >= 1 change; "
              "distinct = (shape, rows, type, weights, gap flag).  history: non-trivial = some call whose expected score "
-             "differs from the expected score of the preceding call on the same tree object; distinct = whole case.  "
+             "differs from the expected score of the preceding call on the same tree object; distinct = whole case; "
+             "before a third of the later calls the same tree object is restructured with a library operation "
+             "(reroot_at_edge/_node/_midpoint, reseed_at, to_outgroup_position, a new seed node added by hand above "
+             "the old one, prune_taxa) and the reference is the tree as it is at the time of the call.  "
              "final: non-trivial = some internal non-root node whose final set differs from its down-pass set.  "
              "edits: one matrix object scored, edited in place (cells set / rows swapped or replaced / column "
              "appended or deleted) and re-scored on the same and on a fresh tree over 2-5 steps; non-trivial = a "
@@ -632,6 +635,55 @@ def check_score(ctx, case):
 # sub-check: history
 # ---------------------------------------------------------------------------
 
+TREE_OPS = ["reroot_at_edge", "reroot_at_edge", "reroot_at_node", "reseed_at", "to_outgroup_position",
+            "reroot_at_midpoint", "new_seed_above", "prune_leaf"]
+
+
+def apply_tree_op(tree, rt, op, v):
+    """Restructure the SAME tree object between two scoring calls with the library's own operations (several of them
+    replace or add the seed node).  Returns False when the operation does not apply to this tree."""
+    import dendropy
+    nonroot = [i for i in rt.preorder() if i != rt.root]
+    inner = [i for i in nonroot if rt.children[i]]
+    leaves = rt.leaves()
+    pick = lambda cand: rt.obj[cand[v % len(cand)]]
+    if op == "reroot_at_edge":
+        tree.reroot_at_edge(pick(nonroot).edge)
+    elif op == "reroot_at_node":
+        if not inner:
+            return False
+        tree.reroot_at_node(pick(inner))
+    elif op == "reseed_at":
+        if not inner:
+            return False
+        tree.reseed_at(pick(inner))
+    elif op == "to_outgroup_position":
+        tree.to_outgroup_position(pick(nonroot))
+    elif op == "reroot_at_midpoint":
+        for i in nonroot:
+            rt.obj[i].edge.length = 1.0 + ((i * 7 + v) % 3)
+        tree.reroot_at_midpoint()
+    elif op == "new_seed_above":
+        # root an unrooted drawing by hand: a new seed node above the old one takes over the old seed's last child
+        old = rt.obj[rt.root]
+        kids = old.child_nodes()
+        if len(kids) != 3:
+            return False
+        moved = kids[v % 3]
+        old.remove_child(moved)
+        new = dendropy.Node()
+        new.add_child(old)
+        new.add_child(moved)
+        tree.seed_node = new
+    elif op == "prune_leaf":
+        if len(leaves) < 4:
+            return False
+        tree.prune_taxa([pick(leaves).taxon])
+    else:
+        raise runner.HarnessError("unknown tree op " + op)
+    return True
+
+
 def check_history(ctx, case):
     from dendropy.model import parsimony
     spec, rooting, mats, calls = case["spec"], case["rooting"], case["mats"], case["calls"]
@@ -650,12 +702,43 @@ def check_history(ctx, case):
     prev_want = None
     interesting = False
     log = []
+    idx = dict(("T%d" % i, i) for i in range(len(taxa)))
+    restructured = False
     for k, c in enumerate(calls):
         m = mats[c["m"]]
         gam_arg = c["gam"]
         gam = eff_gam(gam_arg)
         weights = m["weights"] if c["use_weights"] else None
         route = c["route"]
+        top = c.get("tree_op")
+        if top is not None and k > 0:
+            # tree surgery is another property's subject (C03/C07): an operation that raises or leaves the documented
+            # domain of the scorer (strictly bifurcating, seed with 2 or 3 children) ends the case without a verdict
+            old_seed = tree.seed_node
+            try:
+                applied = apply_tree_op(tree, rt, top["op"], top["v"])
+            except Exception as e:
+                if not runner.exc_in_dendropy(e):
+                    raise
+                ctx.cls("history.tree_op_raised:" + top["op"])
+                return
+            if applied:
+                rt2, problems = snapshot(tree)
+                rd2, id2 = degree_profile(rt2)
+                if problems or rd2 not in (2, 3) or (id2 - set([2])) or rt2.n_leaves() < 2 \
+                        or any(rt2.taxon[l] is None for l in rt2.leaves()):
+                    ctx.cls("history.tree_op_left_domain:" + top["op"])
+                    return
+                rt = rt2
+                spec = rt.to_spec(taxon_index=idx)
+                rooting = "rooted" if rd2 == 2 else "unrooted"
+                restructured = True
+                ctx.cls("history.tree_op:" + top["op"])
+                if tree.seed_node is not old_seed:
+                    ctx.cls("history.tree_op_replaced_seed_node")
+                    pc = calls[k - 1]
+                    if pc["m"] != c["m"] or eff_gam(pc["gam"]) != gam:
+                        ctx.cls("history.other_data_or_gap_flag_after_seed_node_replaced")
         changes = [e[0] for e in expected_changes(rt, m, gam)]
         want_list = weighted(changes, weights)
         want = sum(want_list)
@@ -667,7 +750,8 @@ def check_history(ctx, case):
                                             taxon_state_sets_map=built[c["m"]].taxon_state_sets_map(gaps_as_missing=gam),
                                             weights=weights, score_by_character_list=lst)
         fresh, flst = fresh_score(ctx, spec, rooting, m, gam_arg, weights, c["per_char"])
-        log.append({"call": k, "matrix": c["m"], "type": m["dtype"], "rows": m["rows"], "gam": gam_arg,
+        log.append({"call": k, "tree_op_before": top, "tree": rt.canon(ordered=True), "matrix": c["m"],
+                    "type": m["dtype"], "rows": m["rows"], "gam": gam_arg,
                     "weights": weights, "route": route, "got": got, "fresh": fresh, "oracle": want})
         ctx.cls("history.route:" + route)
         if k > 0:
@@ -701,7 +785,7 @@ def check_history(ctx, case):
                       lambda w: fresh_score(ctx, spec, rooting, m, gam_arg, w, c["per_char"]),
                       weights, len(m["rows"][0]), case.get("scale", 0.5), fresh, flst,
                       lambda: "tree=%s call=%r" % (rt.canon(ordered=True), log[-1]))
-        if c["up_pass_after"] and rooting == "rooted" and route == "score":
+        if c["up_pass_after"] and rooting == "rooted" and route == "score" and not restructured:
             parsimony.fitch_up_pass(tree.preorder_node_iter())
             ctx.cls("history.up_pass_between_calls")
     if interesting:
@@ -1199,6 +1283,8 @@ def history_cases(draw, max_leaves, max_chars):
                       "use_weights": draw(st.booleans()),
                       "per_char": draw(st.booleans()),
                       "route": draw(st.sampled_from(["score", "score", "score", "down_pass_no_attr"])),
+                      "tree_op": (None if j == 0 or draw(st.integers(0, 2)) else
+                                  {"op": draw(st.sampled_from(TREE_OPS)), "v": draw(st.integers(0, 63))}),
                       "up_pass_after": draw(st.sampled_from([False, False, True]))})
     return {"spec": spec, "rooting": rooting, "mats": mats, "calls": calls, "scale": draw(st.sampled_from(SCALES))}
 
